@@ -13,7 +13,7 @@ use simple_sds::sparse_vector::SparseVector;
 
 fn direct(kind: &str, route_salt: usize, len: usize, runs: &Runs) -> AnyBv {
     // the target type's own builder routes (no conversion)
-    let routes: &[&str] = match kind { "plain" => &["raw", "push", "iter"], "sparse" => &["builder", "try_set", "extend"], _ => &["runs", "bits", "split", "set_len_steps"] };
+    let routes: &[&str] = match kind { "plain" => &["raw", "push", "iter"], "sparse" => &["builder", "try_set", "extend"], _ => &["runs", "bits", "split", "set_len_steps", "zero_runs"] };
     let route = routes[route_salt % routes.len()];
     match kind {
         "plain" => {
@@ -104,6 +104,10 @@ pub fn replay_content(case: &Value, behs: &[Behaviour], tally: &mut Tally) {
         let r = guarded(|| {
             let mut out: Vec<(i64, &'static str, Value, Value)> = Vec::new();
             let mut o = direct(&beh.init, bi, len, &runs);
+            // the representation does not depend on the builder call decomposition
+            let canon0 = canonical(type_of(&o), len, &runs, &json!({}));
+            out.push((-1, "initial object (built by a rotating builder decomposition) == the structure built by the canonical decomposition", json!(true), json!(same(&o, &canon0))));
+            out.push((-1, "initial object serializes identically to the canonically built structure", json!(true), json!(bytes_of(&o) == bytes_of(&canon0))));
             for (i, s) in beh.steps.iter().enumerate() {
                 let c = &s["c"];
                 match c["op"].as_str().unwrap() {
